@@ -88,6 +88,8 @@ def run(modname, cases, bound, rule, budget_s=None, chunk=12, assumptions=(), ke
                 break
     if errors:
         raise RuntimeError(f"bounded harness errors ({len(errors)}): {errors[0]}")
+    if not samples and cases:
+        samples.append({"case": repr(cases[0])[:400]})
     # one representative per violation key
     seen = {}
     for v in viols:
